@@ -91,6 +91,61 @@ def keyFn (key : Option FnTab) : Val → Except Err Val := fun v =>
 
 instance : PyVal Val := ⟨Val.truthy, Val.isNone⟩
 
+/-- parsed parameters of a chainable (`Val → Val`) stage -/
+structure StageDesc where
+  name : String
+  f : Option FnTab := none
+  p : Option FnTab := none
+  key : Option FnTab := none
+  cmp : Option FnTab := none
+  n : Int := 0
+  inclusive : Bool := false
+  dflt : Val := .none
+
+def stageDescOfJson (j : Json) : Except String StageDesc := do
+  let name ← getStr j "name"
+  pure { name := name, f := ← getFnOpt j "f", p := ← getFnOpt j "p", key := ← getFnOpt j "key", cmp := ← getFnOpt j "cmp",
+         n := (j.getObjValAs? Int "n").toOption.getD 0, inclusive := (j.getObjValAs? Bool "inclusive").toOption.getD false,
+         dflt := (getVal j "dflt").toOption.getD .none }
+
+def noFn : FnTab := ⟨[], .ok .none⟩
+
+/-- the operator of a stage: `none` = not chainable, `some (.error e)` = constructor-time exception -/
+def StageDesc.op (d : StageDesc) : Option (Except Err (Op Val Val)) :=
+  match d.name with
+  | "map" => some (.ok (match d.f with | some f => mapOp f.call | none => mapOp (fun v : Val => .ok v)))
+  | "filter" => some (.ok (filterOp (pred1 (d.p.getD noFn))))
+  | "filter_indexed" => some (.ok (filterIndexedOp (d.p.map pred2)))
+  | "take" => some (take? (α := Val) d.n)
+  | "skip" => some (skip? (α := Val) d.n)
+  | "take_while" => some (.ok (takeWhileOp (pred1 (d.p.getD noFn)) d.inclusive))
+  | "take_while_indexed" => some (.ok (takeWhileIndexedOp (pred2 (d.p.getD noFn)) d.inclusive))
+  | "skip_while" => some (.ok (skipWhileOp (pred1 (d.p.getD noFn))))
+  | "distinct" => some (.ok (distinctOp (keyFn d.key) (pyEqCmpE d.cmp)))
+  | "distinct_until_changed" => some (.ok (distinctUntilChangedOp (keyFn d.key) (pyEqCmpE d.cmp)))
+  | "take_last" => some (.ok (takeLastOp (α := Val) d.n))
+  | "skip_last" => some (.ok (skipLastOp (α := Val) d.n))
+  | "default_if_empty" => some (.ok (defaultIfEmptyOp d.dflt))
+  | "ignore_elements" => some (.ok (ignoreElementsOp (α := Val)))
+  | _ => none
+
+/-- all stages as operators, or the first constructor-time exception / unsupported name -/
+def stagesOps : List StageDesc → Except String (Except Err (List (Op Val Val)))
+  | [] => .ok (.ok [])
+  | d :: ds =>
+    match d.op, stagesOps ds with
+    | none, _ => .error s!"operator {d.name} cannot be chained"
+    | _, .error e => .error e
+    | some (.error e), _ => .ok (.error e)
+    | some (.ok _), .ok (.error e) => .ok (.error e)
+    | some (.ok o), .ok (.ok os) => .ok (.ok (o :: os))
+
+/-- `source.pipe(s1, s2, …)`: the stages composed with the real observer/disposal chain between them -/
+def chainOp : List (Op Val Val) → Op Val Val
+  | [] => idOp
+  | [a] => a
+  | a :: b :: rest => a.comp (chainOp (b :: rest))
+
 def handleC05 (j : Json) : Except String Json := do
   let name ← getStr j "name"
   let mode ← getStr j "mode"
@@ -148,6 +203,12 @@ def handleC05 (j : Json) : Except String Json := do
   | "materialize" => pure (go (materializeOp (α := Val)) idv notifToVal)
   | "dematerialize" => pure (go (dematerializeOp (α := Val)) notifOfVal idv)
   | "materialize_dematerialize" => pure (go ((materializeOp (α := Val)).comp dematerializeOp) idv idv)
+  | "chain" =>
+    let descs ← (← getArr j "stages").mapM stageDescOfJson
+    match stagesOps descs with
+    | .error e => throw e
+    | .ok (.error e) => pure (ctorErr e)
+    | .ok (.ok os) => pure (go (chainOp os) idv idv)
   | "slice" =>
     let fixed := (j.getObjValAs? Bool "fixed").toOption.getD true
     match Slice.pipeline fixed (← getOptInt j "start") (← getOptInt j "stop") (← getOptInt j "step") with
